@@ -8,6 +8,7 @@
   column numbers still go through SearchIndex; a computed expression is found again by its formatted text, letter
   case ignored except inside string literals - evalColumn asks only for references and analytic functions):
   * FieldIndex takes `view` / the trimmed `column` from the reference, `idx := -1` directly before the loop;
+  * FieldNumberIndex: numbers below 1 are not looked up; the first field with that view name and number is returned;
   * SearchIndex sends column numbers to FieldNumberIndex, everything else to FieldIndex; ContainsObject resolves
     field references through SearchIndex; Header.Update sets the view name of every field and clears its aliases;
   * View.Fix re-projects the records unless selectFields is the identity (every index compared with its position), then
@@ -506,5 +507,19 @@ def evalColumnBody : List String :=
    "}",
    "}",
    "returnidx,nil"]
+
+/-- `FieldNumberIndex` with its two conditions named GUARD and MATCH: the first matching field is returned -/
+def fieldNumberIndexShape : List String :=
+  ["view:=number.View.Literal",
+   "idx:=int(number.Number.Raw())",
+   "if(GUARD){",
+   "return-1,errFieldNotExist",
+   "}",
+   "for(i,f:range:h){",
+   "if(MATCH){",
+   "returni,nil",
+   "}",
+   "}",
+   "return-1,errFieldNotExist"]
 
 end Csvq.Ref
